@@ -74,6 +74,30 @@ CHECKS["C12"] = {
     "note": _LIFE_NOTE, "technique": "Rocq proofs (induction over operation sequences) on the life-cycle model + deterministic interleaving injection + macro-step differential correspondence", "design": "DESIGN.md 5 C12",
 }
 
+_HAND_NOTE = "Trusted: Coq kernel + vm_compute; the translator's reading of table_engine.go / game.go / table_engine_internal.go / table_engine_stage.go / game_statistics.go (fails loudly on unrecognised shapes; cross-checked by the differential run); hand-written interpretation in Model/HandRules.v and Model/Collect.v; the hand engine (pokerface v0.1.10, outside this repository) enters as observed oracle values; quiescence detected through the verif hooks; GameContinueInterval = 0."
+CHECKS["C10"] = {
+    "text": "The per-action facts of the nine Player<Action> methods and of the hand wrapper's methods (locking, validateGameMove, validatePlayMove / validateActionMove / allowed-action checks, which wrapper and backend call is made, that the last-action record, the event and the statistics sit inside `if err == nil`) are regenerated from the sources on every run. Theorems, for every table state, caller, action and hand-engine answer: an action is accepted only while a hand is being played, only from a hand entry, for ready/pay only if allowed, for betting actions and pass only from the current player with the hand engine's consent (and a pass only if allowed); a refused action leaves last action, statistics, hand and event stream untouched; an accepted one is applied once, recorded as last action and, for betting actions and pass, published as exactly one event; over any history the number of events equals the number of accepted betting actions. The full-strength clause 'an event for EVERY accepted action' is refuted for ready and pay (known findings F13, F21). Correspondence: every attempt of driven histories (legal play plus out-of-turn / not-allowed / not-dealt-in / stranger / no-hand attempts) is decided by the model and compared; refusals are compared by SHA-1 of the complete table JSON and of the wrapper's hand state before/after.",
+    "note": _HAND_NOTE + " Concurrent submission is C16's subject. One genuine defect found by this check was repaired (F20: a pass the hand does not allow was reported as accepted).",
+    "technique": "per-method facts regenerated from source + Rocq proofs parametric in the hand engine's answers + attempt-level differential correspondence", "design": "DESIGN.md 5 C10",
+}
+CHECKS["C13"] = {
+    "text": "Theorems on the same model, with a failing backend call as the oracle answer `not ok`: a failed betting action / pass returns an error and changes nothing (last action, statistics, hand, events); the same action submitted again is decided exactly as if the failure had not happened; for ANY history of attempts, failures and retries, the course (last action, statistics, hand state, event stream) equals that of the accepted attempts alone (erasure theorem by induction over the history); the four steps the engine makes by itself hand a backend error to the table's error callback (facts regenerated from game.go / startGame). Correspondence: backend calls are made to fail once..three times before the same action is retried; ReadyForAll / PayAnte / PayBlinds / Next are made to fail; each faulted history is compared (final bankrolls) with a fault-free twin run on the same seeded decks and first dealer.",
+    "note": _HAND_NOTE, "technique": "Rocq erasure theorem over attempt histories + facts regenerated from source + fault-injecting backend wrapper with fault-free twin runs", "design": "DESIGN.md 5 C13",
+}
+CHECKS["C14"] = {
+    "text": "The statistics update statements of every Player<Action> method are regenerated from the sources as guarded primitives and interpreted by the model. Theorems, for any number of players and any sequence of accepted betting actions from a cleared block: each player's action / call / check counters equal the numbers of such actions accepted from them and raises never exceed actions; fold flag and fold round are those of the player's fold; for any interleaving of accepted actions, chance markings and showdown markings every 'did X' flag implies its 'had the chance' flag and at most one player holds the 3-bet flag (refreshThreeBet modelled); continueGame replaces every block. The flag theorem rests on a stated assumption about the hand engine (a player is asked only with a clear Acted flag and the betting event is not named Started, so the seven chance flags behind validateGameStatisticGameState are never marked), watched on every observed settlement and also exercised against a backend that names the event Started. Correspondence: after every accepted action the implementation's block pushed through the model's interpretation equals the implementation's block after it; at settlement a tally of the accepted actions is compared with the published block; the first snapshot of the next hand must be all zero.",
+    "note": _HAND_NOTE + " Observation (not a finding): PlayerFold sets the fold-to-c-bet flag under the fold-to-3-bet chance flag; unreachable under the stated assumption.",
+    "technique": "update statements regenerated from source + Rocq invariant proofs over action sequences + per-action differential correspondence of the statistics block", "design": "DESIGN.md 5 C14",
+}
+CHECKS["C15"] = {
+    "text": "Facts about updateCurrentActionEndAt, the round-closed handler, continueGame and PlayerExtendActionDeadline are regenerated from the sources; theorems on the deadline step function: a RoundStarted state while playing, in a betting round, whose current player has not acted and is offered only wager actions sets the deadline to request time + action time; the round-closed handler and continueGame clear it; any number of extensions moves it later by exactly the sum of the requested seconds, each returning the new value; no other hand event changes it. Correspondence: on every attempt of the driven histories the deadline published with each hand event and at quiescence is compared against the clock bracket [before the call, at quiescence] + configured action time (5..34 s), cleared deadlines with RoundClosed and after settlement, and 0..3 extensions of 1..40 s per turn.",
+    "note": _HAND_NOTE + " One-second clock resolution.", "technique": "facts regenerated from source + Rocq proofs on the deadline step function + monitors on published deadlines", "design": "DESIGN.md 5 C15",
+}
+CHECKS["C11"] = {
+    "text": "Ready-group model (syncsaga semantics: an answer is recorded only for a participant; completion starts once, when all are ready; the timeout answers for everybody still awaited). Theorems, for every set of asked players and every sequence of answers (any order, repeats, strangers): the completion starts exactly once and exactly at the first moment everyone asked has answered; a single withheld answer blocks it whatever else arrives; every order completes; after the timeout it completes; readiness and ante ask every hand entry, blinds exactly the entries holding a blind position whose blind is positive (rules regenerated from game.go). PARTIAL: 'every opened hand reaches settlement' needs the hand engine to close each betting round after finitely many actions (outside this repository); it is decided on observed hands (every fully answered hand settles with a result entry per participant, closed rounds are followed by Next without a trigger), not proved. Correspondence: answers in random orders with repeats, the group's pending set read through a verif hook before and after every answer; one-answer-withheld histories wait out the real 17 s timeout.",
+    "note": _HAND_NOTE, "technique": "Rocq proofs on the ready-group model (closed form of any answer sequence) + asked-set rules regenerated from source + monitors incl. real timeout", "design": "DESIGN.md 5 C11",
+}
+
 NOT_YET = "not built yet in this round (work in progress; the design claims it, see DESIGN.md 5)"
 
 
@@ -89,7 +113,7 @@ def main():
                   "source_commits": hook_commits, "add_only": True},
         "engines": [
             {"name": "rocq-model", "path": "coq/", "serves_properties": sorted(CHECKS), "kind_free_text": "Coq 8.16.1 development: executable model, decidable specifications, theorems; vm_compute correspondence against Go traces"},
-            {"name": "translator", "path": "translator/", "serves_properties": ["C01", "C02", "C04", "C06", "C17"], "kind_free_text": "go/ast translator regenerating coq/Gen/*.v from /repo on every run"},
+            {"name": "translator", "path": "translator/", "serves_properties": ["C01", "C02", "C04", "C06", "C10", "C11", "C13", "C14", "C15", "C17"], "kind_free_text": "go/ast translator regenerating coq/Gen/*.v from /repo on every run"},
             {"name": "harness", "path": "harness/", "serves_properties": sorted(CHECKS), "kind_free_text": "Go drivers (-tags verif) running the real packages and printing traces as Gallina terms"}],
         "checks": [], "not_applicable": [], "notes": "see DESIGN.md; known findings in known_findings.json",
     }
